@@ -95,6 +95,9 @@ func gobEncodeItem(it Item) ([]byte, error) {
 		if i, ok := it.(IRI); ok {
 			return []byte(i), nil
 		}
+		if i, ok := it.(*IRI); ok {
+			return []byte(*i), nil
+		}
 		return []byte{}, nil
 	}
 	b := bytes.Buffer{}
